@@ -13,9 +13,14 @@ pub const RULE: &str = "case = history over {serialize ok, serialize failing at 
 non-trivial = a failing serialize lies between two accepted values of the same block, or the writer is dropped with a non-empty open block; distinct = hash of (schema JSON, history outline)";
 
 #[derive(Clone)]
-struct SharedSink(Rc<RefCell<Vec<u8>>>);
+struct SharedSink(Rc<RefCell<Vec<u8>>>, Rc<std::cell::Cell<u8>>);
+/// states of the refusal switch: 0 off, 1 armed (refuse the next write call, accepting nothing), 2 fired
 impl std::io::Write for SharedSink {
 	fn write(&mut self, b: &[u8]) -> std::io::Result<usize> {
+		if self.1.get() == 1 {
+			self.1.set(2);
+			return Err(std::io::Error::new(std::io::ErrorKind::Other, "harness: sink refuses this write (nothing accepted)"));
+		}
 		self.0.borrow_mut().extend_from_slice(b);
 		Ok(b.len())
 	}
@@ -65,7 +70,9 @@ pub fn run(tape: &[u8], ctx: &mut Ctx) {
 	sc.allow_slow_sequence_to_bytes();
 	let mut accepted: Vec<usize> = Vec::new();
 	let mut evals = 0u64;
-	let mut w = match build_writer(&mut sc, &h, SharedSink(sink.clone())) {
+	let refusal = Rc::new(std::cell::Cell::new(0u8));
+	let mut refusals = 0;
+	let mut w = match build_writer(&mut sc, &h, SharedSink(sink.clone(), refusal.clone())) {
 		Ok(w) => w,
 		Err(e) => {
 			ctx.violation("C15/writer-build-failed", format!("{outline}: {e}"));
@@ -74,7 +81,7 @@ pub fn run(tape: &[u8], ctx: &mut Ctx) {
 	};
 	evals += 1;
 	if check_sink(ctx, &h, &env, &sink.borrow(), &accepted, true, "build").is_none() {
-		std::mem::forget(w);
+		discard(w);
 		return;
 	}
 	let mut bad_between_good_in_block = false;
@@ -87,19 +94,48 @@ pub fn run(tape: &[u8], ctx: &mut Ctx) {
 			Op::SerializeAll(v) => v.iter().any(|x| matches!(x, Item::Bad(_))),
 			_ => false,
 		};
+		// a transient sink failure: the first write call of an explicit flush is refused atomically
+		// (nothing accepted), afterwards the sink works again and the application carries on. The
+		// flush must report the error; every later call that returns Ok must again leave a valid file.
+		if matches!(op, Op::FinishBlock) && t.chance(64) {
+			refusal.set(1);
+			let r = apply_op(&mut w, &h, op, &mut accepted);
+			let fired = refusal.get() == 2;
+			refusal.set(0);
+			if fired {
+				refusals += 1;
+				if r.is_ok() {
+					ctx.violation("C15/sink-error-swallowed", format!("schema {} {outline}: op #{i} finish_block returned Ok although the sink refused its first write", h.case.json));
+					discard(w);
+					return;
+				}
+				evals += 1;
+				if check_sink(ctx, &h, &env, &sink.borrow(), &accepted, false, &format!("op #{i} finish_block (sink refused the write)")).is_none() {
+					discard(w);
+					return;
+				}
+				continue;
+			}
+			if let Err(e) = r {
+				ctx.violation("C15/write-failed", format!("schema {} {outline}: op #{i} {op:?}: {e}", h.case.json));
+				discard(w);
+				return;
+			}
+		} else {
 		match apply_op(&mut w, &h, op, &mut accepted) {
 			Ok(()) => {}
 			Err(e) => {
 				let sig = if e.starts_with("BAD-ACCEPTED") { "C15/non-conforming-value-accepted" } else { "C15/write-failed" };
 				ctx.violation(sig, format!("schema {} {outline}: op #{i} {op:?}: {e}", h.case.json));
-				std::mem::forget(w);
+				discard(w);
 				return;
 			}
+		}
 		}
 		evals += 1;
 		let must_all = matches!(op, Op::FinishBlock);
 		let Some(flushed) = check_sink(ctx, &h, &env, &sink.borrow(), &accepted, must_all, &format!("op #{i} {op:?}")) else {
-			std::mem::forget(w);
+			discard(w);
 			return;
 		};
 		// bookkeeping for the non-trivial rule: a bad item while the open block already holds a good value...
@@ -136,7 +172,7 @@ pub fn run(tape: &[u8], ctx: &mut Ctx) {
 		_ => {
 			if let Err(e) = w.finish_block() {
 				ctx.violation("C15/write-failed", format!("schema {} {outline}: finish_block: {e}", h.case.json));
-				std::mem::forget(w);
+				discard(w);
 				return;
 			}
 			drop(w);
@@ -147,7 +183,10 @@ pub fn run(tape: &[u8], ctx: &mut Ctx) {
 	ctx.label(format!("ending:{end_name}"));
 	check_sink(ctx, &h, &env, &sink.borrow(), &accepted, true, end_name);
 	ctx.sub_evaluations = evals;
-	ctx.nontrivial = bad_between_good_in_block || (ending == 1 && open_block_nonempty);
+	ctx.nontrivial = bad_between_good_in_block || (ending == 1 && open_block_nonempty) || refusals > 0;
+	if refusals > 0 {
+		ctx.label("history:flush-refused-then-continued");
+	}
 	if bad_between_good_in_block {
 		ctx.label("history:failing-value-between-accepted-in-one-block");
 	}
